@@ -240,6 +240,16 @@ def search_cases(rng, n, maxcmds=8):
                 parts.append(rng.pick([b"1G", b"G", b"", b"3G"]) + d + pat + rng.pick([d, d, b"", d + b"1", d + b"-1"]) + b"\n")
                 if rng.below(2): parts.append(rng.pick([b"n", b"N"]))
             out.append(case(f, b"".join(parts), rows, cols)); continue
+        if i % 20 == 7:
+            # matches that touch or overlap: a counted n / N / ^A must equal the same key typed that many times
+            f = "ab.abab..ab\néé.éééé.éé x\naaaa aa a\nabab abab\nxx\n".encode()
+            pat = rng.pick([b"ab", "éé".encode(), b"aa", b"a", b"abab", "é".encode(), b"b"])
+            d = rng.pick([b"/", b"/", b"?"])
+            parts = [rng.pick([b"1G", b"2G", b"3G", b"G", b"4G$"]), d + pat + b"\n"]
+            for _ in range(1 + rng.below(5)):
+                parts.append(rng.pick([b"", b"", b"2", b"3", b"4"]) + rng.pick([b"n", b"n", b"N", b"N", b"\x01", d + b"\n"]))
+                if rng.below(4) == 0: parts.append(rng.pick([b"0", b"$", b"l", b"h", b"j", b"k", b"w"]))
+            out.append(case(f, b"".join(parts), rows, cols)); continue
         for _ in range(1 + rng.below(maxcmds)):
             k = rng.below(12)
             c = cnt(rng) if rng.below(4) == 0 else b""
@@ -276,6 +286,15 @@ def repeat_cases(rng, n):
         mid = b"".join(rng.pick(safe) for _ in range(rng.below(3)))
         tail = rng.pick([b"", b"", b"u", b"j", b"p", b"\x07"])
         kind = rng.below(10)
+        if i % 40 == 5:
+            # a recorded change of several hundred to a few thousand keys (below the 4 KiB recording buffer)
+            unit = rng.pick([b"z", b"word ", "é".encode(), "中x".encode(), b"ab"])
+            body = unit * (rng.pick([300, 505, 509, 512, 600, 1000]) // len(unit) + 1)
+            ch = rng.pick([b"i", b"a", b"A", b"o", b"cw"]) + body + b"\x1b"
+            first = rng.pick([b"x", b"dd", b""])
+            a = pre + first + ch + b"j0" + b"." + tail
+            b = pre + first + ch + b"j0" + ch + tail
+            out.append((case(f, a, rows, cols), case(f, b, rows, cols))); continue
         if kind < 6:
             ch = rng.pick(CHANGES)
             k = rng.pick([1, 1, 1, 2, 3])
